@@ -208,8 +208,10 @@ def gen_cache_ops(rng, n, threaded=False, subs=True, no_overwrite=False, close=T
             present.append(set())
 
     def newval():
+        # codes >= 1000 are stored as a list / dict / numpy array / str / tuple (harness/impl/c20_impl.py: enc), so
+        # that an overwrite (or delete + set again) also changes the type of the stored object
         val[0] += 1
-        return val[0]
+        return val[0] + (1000 * rng.randint(1, 5) if rng.random() < 0.3 else 0)
     for _ in range(n):
         ci = rng.randrange(ncaches)
         k = rng.randrange(NKEYS)
@@ -265,7 +267,9 @@ def gen_cache_ops(rng, n, threaded=False, subs=True, no_overwrite=False, close=T
     return ops
 
 
-def small_cache_alphabet():
+def small_cache_alphabet(typed=False):
+    if typed:       # the second value of key 0 is a list (an HDF5 group instead of a dataset)
+        return [([o[0], o[1], o[2], 1002] if o[0] == 'set' and o[3] == 2 else o) for o in small_cache_alphabet()]
     return [['short', 0, [0]], ['short', 0, []], ['set', 0, 0, 1], ['set', 0, 0, 2], ['getitem', 0, 0], ['del', 0, 0],
             ['preload', 0, [0], False], ['get', 0, 0], ['set', 0, 1, 3], ['getitem', 0, 1]]
 
@@ -422,7 +426,8 @@ def cache_oracle(case, res, death_ok=False):
                 and k in deleted and o[1] == deleted[k]):
             key = K_F9
         elif hd5 and not was_closed and orc.overwrites > 0 and (
-                (o[0] == 'exc' and o[1] == 'OSError' and op[0] in ('set', 'setdefault', 'update')) or
+                (o[0] == 'exc' and o[1] in ('OSError', 'ValueError') and 'name already exists' in str(o[2:])
+                 and op[0] in ('set', 'setdefault', 'update')) or      # OSError: new dataset, ValueError: new group
                 (case.get('threading') and ((o[0] == 'exc' and o[1] in DEATH) or o == ['bool', False]))):
             key = K_H5W     # with the worker thread the OSError kills the worker; it surfaces at a later call
         elif hd5 and was_closed and op[1] > 0 and (op[0] == 'bool' or (op[0] == 'set' and o[0] == 'exc')):
@@ -539,6 +544,13 @@ def stream_cache(ctx, boost):
     for n in range(1, 6):
         for seq in itertools.product(alpha if n < 4 else (alpha[:8] if n == 4 else alpha[:6]), repeat=n):
             cases.append({'storage': 'Storage', 'ops': [list(o) for o in seq]})
+    # ---- the same alphabet (overwrite of key 0 with a value of another type) up to length 3 on the disk storages
+    if ctx.replay_in is None:
+        alpha_t = small_cache_alphabet(typed=True)
+        for st in ['PickleStorage'] + (['Hdf5Storage'] if have_h5 else []):
+            for n in range(1, 4):
+                for seq in itertools.product(alpha_t, repeat=n):
+                    cases.append({'storage': st, 'ops': [list(o) for o in seq]})
     # ---- sequential, random, every storage class, sub-caches, closing
     nrand = ctx.pick(500, 5000) * boost
     for i in range(nrand):
@@ -553,6 +565,13 @@ def stream_cache(ctx, boost):
         cases.append({'storage': st, 'threading': True, 'max_queue_size': rng.choice([1, 2, 2, 3]),
                       'jitter': rng.randint(1, 10 ** 6) if rng.random() < 0.7 else 0,
                       'ops': gen_cache_ops(rng, rng.randint(3, maxlen), threaded=True, no_overwrite=(st == 'Hdf5Storage' and rng.random() < 0.7))})
+    # every sequence up to length 2 of the small alphabet (overwrite with another type), then read back
+    alpha_t = small_cache_alphabet(typed=True)
+    for st in ['PickleStorage'] + (['Hdf5Storage'] if have_h5 else []):
+        for n in range(1, 3):
+            for seq in itertools.product(alpha_t, repeat=n):
+                cases.append({'storage': st, 'threading': True, 'max_queue_size': 1 + (len(cases) % 2),
+                              'ops': [list(o) for o in seq] + [['getitem', 0, 0], ['get', 0, 1]]})
     # injected disk failure: must surface as an error, never as a hang or a wrong value
     for i in range(ctx.pick(60, 500) * boost):
         ops = gen_cache_ops(rng, rng.randint(4, maxlen), threaded=True, subs=False, close=False)
@@ -637,6 +656,17 @@ def main(ctx):
         c20_sched.stream_sched_close(ctx, boost)
         c20_sched.stream_file_storage(ctx, boost)
     ctx.assumptions += [
+        'C20 storage classes: Storage, PickleStorage, Hdf5Storage without the worker thread, PickleStorage and Hdf5Storage with it '
+        '(CacheFile.open(use_threading=True)); ThreadedStorage around the in-memory Storage is not a configuration: '
+        'ThreadedStorage.__init__ refuses a trivial disk_storage with ValueError ("doesn\'t make sense")',
+        'C20 closing: the operations are those of the cache layer, where only the top CacheFile has close()/__exit__ (a sub-cache '
+        'from create_subcache is a plain DictCache without close(); "the data is completely owned by the top-most Storage"). '
+        'Calling Storage.close() directly on a sub-container and closing its parent afterwards (the parent\'s close() then raises '
+        'ValueError("storage was already closed") and a PickleStorage parent leaves its directory behind) is Storage-level use the '
+        'cache layer cannot produce: not generated (gen_fs_prog) and not judged; closing the parent first and a sub-container '
+        'afterwards raises the documented ValueError of a second close and is generated',
+        'C20 names: keys (k0..k3) and sub-cache names (a..d) are disjoint; an HDF5 group shares one namespace between keys and '
+        'sub-group names by construction (create_subcache: "name of a hdf5 subgroup")',
         'C20 model: keys and values are integers; callbacks are abstracted to their return value',
         'C20 not modelled: CPython GIL and queue.Queue internals (assumed a linearizable FIFO with blocking put/get/join), '
         'the real disk beyond one file per key (pickle / h5py internals), logging; close()/__exit__ of the CacheFile/DictCache layer and of '
@@ -648,8 +678,10 @@ def main(ctx):
 
 RULE = ('events: every connect/disconnect/emit/emit_until sequence up to length 4 over 9 letters and up to length 7 over 4 letters, '
         '(quick: 6), plus random sequences; non-trivial = at least 2 connects and an emit.  cache: every sequence up to length 4 over a 10-letter '
-        'alphabet on one key, plus random sequences (length <= 12 quick / 40 thorough) over 4 keys and up to 4 nested (sub-)caches for '
-        'Storage / PickleStorage / Hdf5Storage, with and without the worker thread; non-trivial = at least one write and one read.  '
+        'alphabet on one key (in memory; up to length 3 on PickleStorage / Hdf5Storage, up to length 2 with the worker thread), plus '
+        'random sequences (length <= 12 quick / 40 thorough) over 4 keys and up to 4 nested (sub-)caches for '
+        'Storage / PickleStorage / Hdf5Storage, with and without the worker thread; overwrites, delete + set again and values of six '
+        'Python types (int, list, dict, numpy array, str, tuple) for every storage class; non-trivial = at least one write and one read.  '
         'sched: worker schedules enforced by gates at the synchronisation points (see harness/c20_sched.py); distinct = distinct '
         '(storage, queue size, program, schedule).  sched-close: two fixed programs with close() under every schedule string of length 6 plus '
         'random programs with 0-3 close()/__exit__ calls; non-trivial = a close and another operation.  file-storage: random operation '
